@@ -83,7 +83,7 @@ func routeIndex(tb *Table, name string) int {
 // which oracle reports.
 func runRouting(e *Env, params bool) {
 	if !params {
-		e.Rule = "route tables (1..12 routes; up to 40 in the thorough tier) drawn from a pattern AST (literal/var/prefix+var+suffix segments, 15 regex classes incl. built-in and user-defined global vars and inline regexes on global-named variables, nested optional tails, bare literal tails, '.' in literals; random method subsets; overlapping patterns derived from earlier ones), cache off/on; probes = instantiations, one-step mutations and class near-misses of every pattern + random paths, x 9 methods, lower-case and unknown method tokens, via Match and ServeHTTP. Oracle: backtracking matcher over the AST + documented priority (static, literal-first-segment group, rest; earliest wins). A probe is non-trivial when >= 2 routes qualify or it is a near-miss/mutation of a registered pattern; distinct by (table, method, path). Also varied: a quarter of the routes with literal leading segments are registered inside one or two nested Group calls (inner prefix with or without its slash); options applied through New, WithOptions or half and half; a fifth of the routers use UseEncodedPath (the ServeHTTP side of the model works on URL.EscapedPath()) and a fifth StrictLastSlash; a third of the ServeHTTP probes carry a query string; probe mutations append 1..3 slashes and non-ASCII white space."
+		e.Rule = "route tables (1..12 routes; up to 40 in the thorough tier) drawn from a pattern AST (literal/var/prefix+var+suffix segments, 15 regex classes incl. built-in and user-defined global vars and inline regexes on global-named variables, nested optional tails, bare literal tails, '.' in literals; random method subsets; overlapping patterns derived from earlier ones), cache off/on; probes = instantiations, one-step mutations and class near-misses of every pattern + random paths, x 9 methods, lower-case and unknown method tokens, via Match and ServeHTTP. Oracle: backtracking matcher over the AST + documented priority (static, literal-first-segment group, rest; earliest wins). A probe is non-trivial when >= 2 routes qualify or it is a near-miss/mutation of a registered pattern; distinct by (table, method, path). Also varied: a quarter of the routes are registered inside one or two nested Group calls whose prefixes are their leading segments, literal or variable (inner prefix with or without its slash); options applied through New, WithOptions or half and half; a fifth of the routers use UseEncodedPath (the ServeHTTP side of the model works on URL.EscapedPath()) and a fifth StrictLastSlash; a third of the ServeHTTP probes carry a query string; probe mutations append 1..3 slashes and non-ASCII white space. A third of the routers are looked at through the read-only views (String, Routes, NamedRoutes, IterateRoutes, GetRoute + Route getters) before and between the probes."
 	} else {
 		e.Rule = "same tables/probes as C01; every selected dynamic route's params are checked against ALL decompositions the AST matcher finds (key set == variable names, round trip reproduces the normalised path, each present value satisfies its class, unique decomposition => equal), static => no params, handler view == Match view, cache hit == miss. Non-trivial when the pattern has >= 2 vars, an optional part, a literal prefix/suffix in the variable's segment, or the observation is a cache hit; distinct by (pattern, method, path, hit). Also: re-dispatch probes (the handler of a dynamic route calls HandleContext for the path of another route; the second handler must see the parameters of its own match only). A third of the dynamic ServeHTTP probes are followed by a request whose handler edits its own Params map in place and by a caller editing the map Match returned; the next Match and the next request for the same path must again carry exactly the captured substrings."
 	}
@@ -135,6 +135,27 @@ func routingCase(t *T, params bool) {
 	}
 	router := BuildRouter(tb, opts...)
 	t.AutoSample()
+	// the read-only views of the routing table (a dump for the log, an admin page): looking at the
+	// table must not change what it selects; also called again half-way through the probes
+	inspect := func() {
+		_ = router.String()
+		_ = router.Routes()
+		_ = router.NamedRoutes()
+		router.IterateRoutes(func(*rux.Route) {})
+		_ = router.Handlers()
+		_ = router.Err()
+		for _, rt := range tb.Routes {
+			if g := router.GetRoute(rt.Name); g != nil {
+				_, _, _, _ = g.Path(), g.Methods(), g.Handlers(), g.String()
+			}
+		}
+		t.Count("table.inspected_through_read_only_views", 1)
+	}
+	inspectEvery := 0
+	if chance(r, 1, 3) {
+		inspect()
+		inspectEvery = 1 + r.IntN(4)
+	}
 
 	// parameter maps that handlers kept beyond their request: they belong to that request for good
 	var retained []retainedParams
@@ -156,11 +177,14 @@ func routingCase(t *T, params bool) {
 		defer redispatchProbes(t, tb, router, paths, &probeLog)
 	}
 
-	for _, probe := range paths {
+	for pi, probe := range paths {
 		path := probe.Path
 		npath, ok := RefNormalize(path, strict)
 		if !ok {
 			continue
+		}
+		if inspectEvery > 0 && pi%inspectEvery == 0 {
+			inspect()
 		}
 		mutated := probe.Kind == "mut" || probe.Kind == "near"
 		for mi, method := range append(append([]string{}, AllMethods...), "get", "Post", "FOO", "GETX") {
